@@ -47,6 +47,7 @@ def interp_cases(tier, seed):
     out.append(("NP1", "all-bad", [0]))
     for fam in ("NP1", "NP2", "NP2.4"):
         out.append((fam, "in-outside-block", [0]))
+    out.append(("NP1", "geometry-sequence", [0]))
     return out
 
 
@@ -121,6 +122,17 @@ def interp_check(case):
                 if mode == "last12":
                     labels[nc - 14:nc - 12] = 3          # outside-brain channels next to them may contribute
                 ntr += _interp_one(h, labels, data, seen, "%s bad=%r labels=%r" % (fam, pos, labs))
+    elif mode == "geometry-sequence":
+        # the same label vectors on NP1, then NP2.4, then NP1 in reversed channel order, then a sparse layout, then NP1 again - in one process
+        hs = [("NP1", _header("NP1")), ("NP2.4", _header("NP2.4")),
+              ("NP1 reversed", {k: np.asarray(v)[::-1].copy() for k, v in _header("NP1").items()}),
+              ("sparse 100 um", dict(_header("NP1"), x=np.zeros(384), y=np.arange(384) * 100.0)), ("NP1", _header("NP1"))]
+        for labs in ([(5, 1)], [(100, 2), (101, 1)], [(0, 1), (383, 2), (200, 1)]):
+            labels = np.zeros(nc)
+            for pos, lab in labs:
+                labels[pos] = lab
+            for name, hh in hs:
+                ntr += _interp_one(hh, labels, data, seen, "%s (after other geometries with the same labels) bad=%r" % (name, labs))
     elif mode == "in-outside-block":
         # dead / noisy channels whose only neighbours within reach are labelled outside the brain: they must be rebuilt from them
         for pos in range(nc - 14, nc - 5):
